@@ -82,10 +82,14 @@ def model_a(case):
     for i, (scope, kind) in enumerate(zip(case.get('scopes', SCOPES), case['assign'])):
         if case.get('pad'):
             doc += padding(i)
+        # REPRESENTATION 'dotted': the declaration carries a multi-identifier name at root level (interface A.B.X)
+        # instead of sitting inside namespaces A { B { interface X } } - the same fully qualified name
+        dname = '.'.join(scope + ['X']) if case.get('dotted') else 'X'
+        where = [] if case.get('dotted') else scope
         if kind == 'real':
-            doc += nest(scope, [['interface', 'X', [], [['Ev', 'in', ['void'], []], ['Ov', 'out', ['void'], []]]]])
+            doc += nest(where, [['interface', dname, [], [['Ev', 'in', ['void'], []], ['Ov', 'out', ['void'], []]]]])
         elif kind == 'decoy':
-            doc += nest(scope, [['enum', 'X', ['Ok']]])
+            doc += nest(where, [['enum', dname, ['Ok']]])
     comp_scope = case['scope']
     direction = case.get('dir', 'provides')
     doc += nest(comp_scope, [['component', 'Comp', [['p', case['spell'], direction, False]]]], case.get('multi'))
@@ -124,10 +128,12 @@ def model_b(case):
     for i, (scope, kind) in enumerate(zip(case.get('scopes', SCOPES), case['assign'])):
         if case.get('pad'):
             doc += padding(i)
+        dname = '.'.join(scope + ['X']) if case.get('dotted') else 'X'
+        where = [] if case.get('dotted') else scope
         if kind == 'real':
-            doc += nest(scope, [['extern', 'X', f'verif::T_{scope_tag(scope)}']])
+            doc += nest(where, [['extern', dname, f'verif::T_{scope_tag(scope)}']])
         elif kind == 'decoy':
-            doc += nest(scope, [['enum', 'X', ['Ok']]])
+            doc += nest(where, [['enum', dname, ['Ok']]])
     spell = case['spell']
     itf_scope = case['scope']
     mc = case.get('mc')
@@ -295,6 +301,13 @@ def cases():
                 yield {'kind': 'b', 'assign': list(assign), 'scope': scope, 'spell': spell, 'mc': True}
                 if scope == ['A', 'B']:
                     yield {'kind': 'b', 'assign': list(assign), 'scope': scope, 'spell': spell, 'sem': 'STS'}
+    # REPRESENTATION: declarations written with multi-identifier names at root level
+    for assign in itertools.product(KIND3, repeat=5):
+        for scope in (['A'], ['A', 'B']):
+            for spell in SPELL_X:
+                yield {'kind': 'a', 'assign': list(assign), 'scope': scope, 'spell': spell, 'dir': 'provides',
+                       'sem': 'MTS', 'dotted': True}
+                yield {'kind': 'b', 'assign': list(assign), 'scope': scope, 'spell': spell, 'dotted': True}
     # SIZE: the same with 25 unrelated declarations interleaved (referring scope A.B)
     for assign in itertools.product(KIND3, repeat=5):
         for spell in SPELL_X:
